@@ -137,6 +137,7 @@ func (c c06) Generate(e *Env) ([]*Case, error) {
 		{"literals+X1", "literals+X2"},
 		{"default", "default+X1"}, {"default+X1", "default+X2"},
 		{"default", "default+tags"}, {"seedA", "seedA+X1"},
+		{"default", "ctrlflow"}, {"ctrlflow", "default"},
 	}
 	if thorough {
 		pairs = append(pairs, [][2]string{
@@ -238,6 +239,7 @@ func (c c06) Run(e *Env, cs *Case) (*Outcome, error) {
 		c.finish(o, cs, p, states)
 		return o, nil
 	}
+	lastState := "" // configuration|source of the previous successful build
 	for i, op := range p.Ops {
 		switch {
 		case op.Edit != nil:
@@ -325,7 +327,10 @@ func (c c06) Run(e *Env, cs *Case) (*Outcome, error) {
 		if so, rc := RunBinary(out); so != plain.Stdout || rc != plain.RunExit {
 			return viol("behaviour-differs", key, fmt.Sprintf("program prints:\n%s\nplain build prints:\n%s", firstLines(so, 10), firstLines(plain.Stdout, 10)))
 		}
-		if op.Again {
+		unchanged := op.Again && lastState == cfgName+"|"+editsKey(edits)
+		lastState = cfgName + "|" + editsKey(edits)
+		if unchanged {
+			// Only a rebuild with the very same configuration AND source is a no-op.
 			o.Probes["repeat-build-checked"]++
 			if n := s.Stats.CompileProcs + s.Stats.AsmProcs; n > 0 {
 				return viol("rebuild-recompiled", key, fmt.Sprintf("an unchanged rebuild of %s ran %d compile/asm steps", cfgName, n))
